@@ -35,10 +35,12 @@ out.append("forged-proof synthesis, then a wider calibration family), C13/e (an 
 out.append("tampered one: a per-thread memo keyed on too little), C10/f (keys created on one thread and used on another); the")
 out.append("C04/h (a larger candidate family for the near-collision histories: two clients whose randomness agree in 4 bytes); the")
 out.append("descriptions of further round-2..4 changes were used to add the sweeps and histories of section 9.5 before those")
-out.append("changes were run. Round 5 (variants i, j): the target checks as they stood caught 18 of the 36 on the first pass;")
-out.append("five runs of that pass were lost to a harness that did not compile because it was being edited meanwhile (exit 2,")
-out.append("a machinery error, never a verdict), and 13 were genuine misses: C02/i, C02/j, C03/i, C03/j, C06/j, C07/j, C08/j,")
-out.append("C09/i, C10/i, C11/j, C12/i, C13/i, C15/j, C16/i, C17/j, C18/i (some of these among the lost runs). The checks added")
+out.append("changes were run. Round 5 (variants i, j): on the first pass the target checks as they stood caught 18 of the")
+out.append("36; 13 were missed (C02/i, C02/j, C03/i, C06/j, C07/j, C10/i, C11/j, C12/i, C13/i, C15/j, C16/i, C17/j, C18/i); for")
+out.append("C03/j the coalition check bailed out on shares with two y values and tripped its own vacuity guard (exit 2: a")
+out.append("machinery error, not a detection); four runs hit a harness that did not compile because it was being edited")
+out.append("meanwhile (exit 2) - re-run, two of them were caught by the existing checks (C09/j, C18/j) and two were further")
+out.append("misses (C08/j, C09/i). So 16 of the 36 needed new machinery. The checks added")
 out.append("because of them are the 'fifth round' list of section 9.5 (object reuse, travelled keys, sparse keys, neighbour")
 out.append("classes, framing ambiguity, out-parameters, point padding, algebraic adversary, call histories, value equality,")
 out.append("layout-valid-but-never-dealt encodings, shortened chunks, tag-list shapes, JSON structure, mixed batches, refused")
